@@ -3,6 +3,17 @@ use crate::runtime::RuntimeLimits;
 
 /// a scope with no cells and no parent, built directly (not through from_specs/from_template, whose declaration loop
 /// drags every factory closure of the crate into symex); natives are called in it with pre-evaluated arguments
+pub(crate) fn bare_template<W: 'static, R: 'static, T: 'static>() -> Rc<RuntimeScopeTemplate<W, R, T>> {
+    Rc::new(RuntimeScopeTemplate {
+        id: 1,
+        cells: vec![],
+        declarations: vec![],
+        scope_parent_id: None,
+        param_count: 0,
+        defaults: vec![],
+        output: None,
+    })
+}
 pub(crate) fn bare_scope<W: 'static, R: 'static, T: 'static>() -> RuntimeScope<'static, W, R, T> {
     let template = Rc::new(RuntimeScopeTemplate {
         id: 1,
@@ -106,11 +117,12 @@ fn sym_cell(tag: i64, max_depth: usize, rt: &Rt) -> (MCell, TemplatedEvaluationC
 #[kani::stub(std::collections::hash_map::RandomState::new, stub_rs)]
 #[kani::stub(crate::xexpr::XStaticFunction::to_function, trip_to_function)]
 #[kani::stub(std::rc::Rc::drop_slow, leak_rc)]
+#[kani::stub(crate::xvalue::ManagedXValue::new, crate::xvalue::verif_kani::value_new_unlimited)]
 #[kani::stub(std::sync::Arc::drop_slow, leak_arc)]
 #[kani::unwind(4)]
 fn c03_pending_capture_resolution() {
     let rt: Rt = no_limits();
-    let tpl = RuntimeScopeTemplate::from_specs(1, 0, &[], None, None, vec![], rt.clone(), vec![], None).unwrap();
+    let tpl: Rc<RuntimeScopeTemplate<P, P, P>> = bare_template();
     // level 0: two plain values
     let s0 = RuntimeScope {
         cells: vec![
@@ -172,11 +184,12 @@ fn c03_pending_capture_resolution() {
 #[kani::stub(std::collections::hash_map::RandomState::new, stub_rs)]
 #[kani::stub(crate::xexpr::XStaticFunction::to_function, trip_to_function)]
 #[kani::stub(std::rc::Rc::drop_slow, leak_rc)]
+#[kani::stub(crate::xvalue::ManagedXValue::new, crate::xvalue::verif_kani::value_new_unlimited)]
 #[kani::stub(std::sync::Arc::drop_slow, leak_arc)]
 #[kani::unwind(4)]
 fn c03_capture_from_spec() {
     let rt: Rt = no_limits();
-    let tpl = RuntimeScopeTemplate::from_specs(1, 0, &[], None, None, vec![], rt.clone(), vec![], None).unwrap();
+    let tpl: Rc<RuntimeScopeTemplate<P, P, P>> = bare_template();
     let g_init: bool = kani::any();
     let s0 = RuntimeScope {
         cells: vec![
